@@ -82,6 +82,13 @@ def obligations(ctx):
                     lf = Leaf(ev, 'x', 'Integer' if ev == 'number' else None, 'bv' if ev == 'number' else 'int')
                     args = [lf, lf]; args[pos] = failing_child(ev); args[1 - pos] = lf
                     obs.append(EvalArm('C11', ev, k, (k, args), lambda v: [(True, sem.ERR)], oc=oc, label='%s/%s/failing-arg%d/%s' % (ev, k, pos, tag)))
+        # a failing argument in each position of a gcd / lcm list makes it Err, whatever the other arguments are
+        for k in ('Gcd', 'Lcm'):
+            for pos in (0, 1, 2):
+                a = Leaf('i64', 'x'); b = Leaf('i64', 'y')
+                args = [a, b]; args.insert(pos, failing_child('i64'))
+                bound = z3.And(a.var > -16, a.var < 16, b.var > -16, b.var < 16)
+                obs.append(EvalArm('C11', 'i64', k, (k, args), lambda v: [(True, sem.ERR)], oc=oc, assume=bound, label='i64/%s/failing-arg%d-of-3/%s' % (k, pos, tag), limits={'steps': 4000, 'timeout_ms': 60000}))
         # gcd / lcm: operands below 2^8 (quick) / 2^12 (thorough): Euclid needs at most 1.45*bits+2 iterations
         for k in ('Gcd', 'Lcm'):
             for n in (1, 2, 3):
